@@ -156,6 +156,9 @@ def _as_object_array(value, shape):
     would also descend into items that are sequences themselves)"""
     out = np.empty(shape, dtype=object)
     for idx in np.ndindex(*shape):
+        if hasattr(value, "_shape"):  # an xobject array: indexed by tuples
+            out[idx] = value[idx]
+            continue
         item = value
         for ii in idx:
             item = item[ii]
@@ -506,7 +509,7 @@ class Array(metaclass=MetaArray):
             if len(info.shape) > 1:  # data is stored in memory order
                 value = value.transpose(info.order)
             buffer.update_from_nplike(coffset, cls._itemtype._dtype, value)
-        elif isinstance(value, cls):
+        elif isinstance(value, cls) and not cls._has_refs:
             if value._size == info.size:
                 buffer.update_from_xbuffer(
                     offset, value._buffer, value._offset, value._size
